@@ -11,7 +11,7 @@ class _RL(dict):
 UNIT_RLIMIT = _RL({"div_small": 80, "mul_redc": 80})      # unit -> --rlimit (Verus default is 10; 5x head-room over the measured maximum)
 UNIT_TIMEOUT = {"knuth": 1500, "addmul": 900, "mul_redc": 1200}     # unit -> seconds
 UNIT_EXPECT = {       # unit -> minimum number of verified functions on the unchanged tree (vacuity guard)
-    "core": 31, "add": 29, "kernels": 79, "addmul": 71, "addmul_n": 73, "mul": 51, "divd": 45, "div_small": 235, "knuth": 145, "mul_redc": 124, "basics": 22, "pow": 38, "divw": 54, "modular": 63, "spigot": 44, "gcd": 24, "forward": 57, "invring": 36, "bitlen": 70, "shifts": 131, "recip_table": 2, "gcdext": 67, "gcdw": 36, "bits": 60, "conv": 31, "lehmer": 37, "logs": 27, "forward_shift": 81,
+    "core": 31, "add": 29, "kernels": 79, "addmul": 71, "addmul_n": 73, "mul": 51, "divd": 45, "div_small": 235, "knuth": 145, "mul_redc": 124, "basics": 22, "pow": 38, "divw": 54, "modular": 63, "spigot": 44, "gcd": 24, "forward": 57, "invring": 36, "bitlen": 70, "shifts": 131, "recip_table": 2, "gcdext": 67, "gcdw": 36, "bits": 60, "conv": 31, "lehmer": 37, "logs": 27, "forward_shift": 81, "fmt_consts": 5,
 }
 
 COMMON_TRUST = [
@@ -333,10 +333,11 @@ PROPS = {
         level="proof",
         level_text="Verus proves SpigotLittle::next (the step behind to_base_le / to_base_be) for all LIMBS, values and bases >= 2: None and unchanged state for zero, otherwise Some(value mod base) and the state "
                    "becomes floor(value / base) - so the digit iterator yields exactly the base-b digits; Kani checks from_base_le/be, from_str_radix (alphabets, errors) and FromStr prefix sniffing at small widths with constant bases",
-        level_note="NOT decided: Display/Debug/LowerHex/UpperHex/Octal/Binary formatting (core::fmt machinery behind write!/pad_integral: neither verifier models it at feasible cost); from_base_* / from_str_radix only bounded "
+        level_note="NOT decided: Display/Debug/LowerHex/UpperHex/Octal/Binary formatting (core::fmt machinery behind write!/pad_integral: neither verifier models it at feasible cost) - only its per-base constants are pinned "
+                   "(unit fmt_consts: MAX = base^WIDTH, WIDTH >= 1, PREFIX, decided by evaluation of the extracted initialisers); from_base_* / from_str_radix only bounded "
                    "(digit strings <= 4, constant bases, widths 8/16(/65)); to_base_be's Vec reversal is not separately proved",
         technique="deductive contract (Verus, all widths/bases) for the digit step + Kani bounded contract harnesses for parsing",
-        units=["spigot"],
+        units=["spigot", "fmt_consts"],
         kani=dict(features=None, quick=hs("c09"), thorough=hs("c09"), bounds="see module header of kani/src/c09.rs"),
         explanation="invariant of Knuth's algorithm S over the reversed limb iterator: processed high limbs hold the quotient, remainder < base",
         trusted=COMMON_TRUST,
